@@ -242,6 +242,19 @@ func scenario(param string) vsched.Scenario {
 						}
 					}
 				}
+				if sp.order == "targetReset" {
+					// read what has arrived so far (at least one read), reply, then abort the connection
+					if len(stub.gotPay) == 0 { // otherwise the first bytes came with the dial
+						buf := make([]byte, 64)
+						n, _ := t.Read(buf)
+						targetGot = append(targetGot, buf[:n]...)
+					}
+					targetSent = append(targetSent, "T-before-reset"...)
+					t.Write([]byte("T-before-reset"))
+					vsched.WaitIdle()
+					t.Reset()
+					return
+				}
 				if sp.order == "clientFirst" {
 					readAll()
 					targetEOFBeforeReply = targetEOF
@@ -302,6 +315,23 @@ func scenario(param string) vsched.Scenario {
 				if sp.payload == "late" {
 					vsched.Sleep(300 * time.Millisecond)
 					write("C-late")
+				}
+				if sp.order == "targetReset" {
+					// keep the connection open while the target resets, then send more and finish
+					buf := make([]byte, 64)
+					for len(clientGot) < len("T-before-reset") {
+						n, err := c.Read(buf)
+						clientGot = append(clientGot, buf[:n]...)
+						if err != nil {
+							break
+						}
+					}
+					// stay open for writing until the relay reports the end of the downlink
+					write("C2-after-target-reply")
+					readAll()
+					c.CloseWrite()
+					c.Close()
+					return
 				}
 				if sp.order == "clientFirst" || sp.payload == "eofData" || sp.payload == "eofNoData" {
 					if sp.payload != "eofData" && sp.payload != "eofNoData" {
@@ -374,6 +404,29 @@ func scenario(param string) vsched.Scenario {
 			if dialErrSeen != nil {
 				return obs, "client handshake failed although the onward connection succeeded: " + dialErrSeen.Error()
 			}
+			if sp.order == "targetReset" {
+				// the onward connection was aborted by the destination: the only demands are that the relay
+				// ends, closes both connections, and charges exactly the bytes it delivered each way
+				up := int64(len(stub.gotPay)) + stub.near.TotalWritten()
+				down := rEnd.TotalWritten()
+				if sp.server == "ss2022" || sp.server == "http" || sp.server == "socks5" {
+					down = -1 // framing/handshake bytes are part of what the relay wrote to the client; checked via the client's view instead
+				}
+				if !bytes.HasPrefix(targetSent, clientGot) {
+					return obs, "client received bytes the target never sent"
+				}
+				want := fmt.Sprintf("/%d/%d", len(clientGot), up)
+				if down >= 0 && down != int64(len(clientGot)) {
+					want = fmt.Sprintf("/%d/%d", down, up)
+				}
+				if len(col.calls) != 1 || col.calls[0] != want {
+					return obs, fmt.Sprintf("statistics %v, bytes actually delivered before the destination reset the connection (user/down/up) %s", col.calls, want)
+				}
+				if !rEnd.IsClosed() || !stub.near.IsClosed() {
+					return obs, "relay returned without closing both connections"
+				}
+				return obs, ""
+			}
 			// delivered bytes
 			all := append(append([]byte(nil), stub.gotPay...), targetGot...)
 			if !bytes.Equal(all, clientSent) {
@@ -435,6 +488,7 @@ func family(c *harness.Check) []string {
 						out = append(out, spec{sv, native, wait, pay, "ok", order, "ip"}.String())
 					}
 				}
+				out = append(out, spec{sv, native, wait, "early", "ok", "targetReset", "ip"}.String())
 				for _, d := range []string{"refused", "unreachable", "reject"} {
 					out = append(out, spec{sv, native, wait, "early", d, "clientFirst", "ip"}.String())
 					if wait {
